@@ -167,6 +167,8 @@ func (n *Notifier) PublishContext(ctx context.Context, key any, value any) {
 
 	verifPoint("not.publish.begin", n, len(successCases))
 	for len(successCases) != 0 {
+		verifPoint("not.iter.cases", successCases, len(failureCases))
+		verifPoint("not.iter.refs", failureRefs, len(successCases))
 		var (
 			exitIndex, _, _ = reflect.Select(append(append(append(make([]reflect.SelectCase, 0, len(exitCases)+len(failureCases)+len(successCases)), exitCases...), failureCases...), successCases...))
 			failureIndex    = exitIndex - len(exitCases)
